@@ -139,6 +139,9 @@ SEQ_PROGS = ['del (a), (b), (c)\n', 'x = (a), (b), (c)\n', 'for (i), (j) in (k),
              'if a:\n    del (a), (b)\nelif b:\n    x = (a), (b)\n']
 IDENT_PROG = ('import a.b as c\nfrom m.n import p as q\nfrom . import r\ndef f(a, *b, k=1, **c): pass\nclass K: pass\nx.y = z\nf(k=1)\ndef h():\n    global g\n    nonlocal_ = 1\n'
               'match v:\n  case {**r}: pass\n  case [*s]: pass\n  case C(k=1): pass\n  case t as u: pass\ntry: pass\nexcept E as e: pass\ntype T[U, *V, **W] = U\n')
+IDENT_PROG2 = ('import \ufb01.\ufb02 as \ufb03\nfrom \ufb01.\ufb02 import \ufb01 as \ufb02\ndef \ufb01(\ufb01, *\ufb02, \ufb03=1, **\ufb04): pass\nclass \ufb01: pass\nx.\ufb01 = \ufb02\nf(\ufb01=1)\ndef h():\n    global \ufb01\n    nonlocal_ = 1\n'
+               'match v:\n  case {**\ufb01}: pass\n  case [*\ufb01]: pass\n  case C(\ufb01=1): pass\n  case t as \ufb01: pass\n  case {1: a, **\ufb02}: pass\ntry: pass\nexcept E as \ufb01: pass\ntype T[\ufb01, *\ufb02, **\ufb03] = \ufb01\n'
+               'def k(\ufb01: int, *\ufb02: str): pass\ntype U[\ufb01: int] = \ufb01\n')
 INDENT_PROGS = ['def f():\n    b\'\'\'x\n    y\'\'\'\n    return 1\n', 'class K:\n    def m(self):\n        b\'\'\'p\n  q\'\'\'\n        \'\'\'s\n        t\'\'\'\n        z = b\'\'\'u\n        v\'\'\'\n        return z\n',
                 'def g():\n    \'\'\'doc\n    more\'\'\'\n    x = \'\'\'a\n    b\'\'\'\n    f\'\'\'c{x}\n    d\'\'\'\n    rb\'\'\'e\n    f\'\'\'\n    return x\n']
 PRIM_PROGS = ['x = 1.0.real\n', 'x = [1for y in z]\n', 'x = 1if y else 2\n', 'x = "a".upper()\n', 'x = not"a"\n', 'def f():\n    return"a" + b\n', 'x = "a"if"b"else"c"\n',
@@ -275,6 +278,44 @@ def stage_structural_sweep(ctx: Ctx):
                     if d:
                         ctx.violation(f'pos|identifier-put|{type(f.a).__name__}.{fld}', 'after putting an identifier the source parsed from scratch differs from the live tree',
                                       {**rec, 'result_src': root.src, 'diffs': d})
+            # (g) the reverse: a program whose OWN identifiers are written with compatibility characters (shorter / longer in the source than in the tree):
+            #     every identifier replaced by a plain one or deleted, and the optional children next to them added / deleted
+            probe_j = fst.FST(IDENT_PROG2, 'exec')
+            jobs = []
+            for f in probe_j.walk(True):
+                pth = probe_j.child_path(f)
+                for fld in f.a._fields:
+                    v = getattr(f.a, fld, None)
+                    if isinstance(v, str) and not isinstance(f.a, ast.Constant):
+                        jobs += [(pth, fld, None, 'g'), (pth, fld, None, None)]
+                    elif isinstance(v, list) and v and isinstance(v[0], str):
+                        jobs += [(pth, fld, i, 'g') for i in range(len(v))]
+                if isinstance(f.a, ast.arg):
+                    jobs += [(pth, 'annotation', None, 'int'), (pth, 'annotation', None, None)]
+                if isinstance(f.a, ast.TypeVar):
+                    jobs += [(pth, 'bound', None, 'int'), (pth, 'bound', None, None)]
+                if isinstance(f.a, ast.MatchAs) and f.a.pattern is not None:
+                    jobs += [(pth, 'pattern', None, None), (pth, 'pattern', None, '[p]')]
+                if isinstance(f.a, ast.keyword):
+                    jobs += [(pth, 'value', None, '(2)')]
+            for path, fld, idx, new in jobs:
+                root = fst.FST(IDENT_PROG2, 'exec')
+                f = root.child_from_path(path)
+                rec = {'src': IDENT_PROG2, 'node': repr(f), 'field': fld, 'idx': idx, 'new': new}
+                try:
+                    f.put(new, idx, fld) if idx is not None else f.put(new, fld)
+                except Exception as e:
+                    ctx.dist['sweep:identifier2:refused'] = ctx.dist.get('sweep:identifier2:refused', 0) + 1
+                    d = reparse_diffs(root)
+                    if d or not isinstance(e, (ValueError, fst.NodeError, SyntaxError, NotImplementedError)):
+                        ctx.violation(f'sweep-raise|identifier-written-unnormalized|{type(f.a).__name__}.{fld}|{type(e).__name__}', 'an edit next to an identifier written with compatibility characters crashed (or left an inconsistent tree)',
+                                      {**rec, 'error': repr(e)[:200], 'diffs': d})
+                    continue
+                ctx.tick(('sweep-ident2', str(path), fld, idx, new), 'sweep:identifier-unnormalized')
+                d = reparse_diffs(root)
+                if d:
+                    ctx.violation(f'pos|identifier-written-unnormalized|{type(f.a).__name__}.{fld}', 'after an edit next to an identifier written with compatibility characters the source parsed from scratch differs from the live tree',
+                                  {**rec, 'result_src': root.src, 'diffs': d})
             # (c) primitives put to Constant.value where the constant touches its neighbours
             for csrc in PRIM_PROGS:
                 cprobe = fst.FST(csrc, 'exec')
